@@ -142,11 +142,12 @@ Qed.
 (* ---------- every selection is a sub-selection of the fit table ---------- *)
 Lemma gsel_is_filter g db : exists P, gsel g db = filter P db.
 Proof.
-  induction g as [[q|]|g IH|g IH|g IH q]; simpl.
+  induction g as [[q|]|g IH|g IH|g IH q|ids]; simpl.
   - exists (sem q). reflexivity.
   - exists (fun _ => true). induction db as [|x r IHr]; simpl; [reflexivity | f_equal; exact IHr].
   - eexists. reflexivity.
   - unfold best_of, children_of. rewrite filter_filter. eexists. reflexivity.
+  - eexists. reflexivity.
   - eexists. reflexivity.
 Qed.
 Lemma gsel_incl g db f : In f (gsel g db) -> In f db.
@@ -188,7 +189,7 @@ Lemma gand_sem g cq g' db :
   gsel g' db = filter (fun f => sem cq f) (gsel g db).
 Proof.
   intros ND W H Hok. rewrite forallb_forall in W.
-  destruct g as [[q0|]|g0|g0|g0 q0]; simpl in H, Hok.
+  destruct g as [[q0|]|g0|g0|g0 q0|ids]; simpl in H, Hok.
   - destruct (junction current JAnd [q0; cq]) as [q|e] eqn:J; simpl in H; [|discriminate]. inversion H. subst g'.
     simpl. unfold select. rewrite filter_filter. apply filter_ext_in'. intros f Hf.
     rewrite (junction_and_sem _ _ f J Hok (W f Hf)). simpl. rewrite andb_true_r. reflexivity.
@@ -202,6 +203,9 @@ Proof.
   - destruct (junction current JAnd [q0; cq]) as [q|e] eqn:J; simpl in H; [|discriminate]. inversion H. subst g'.
     cbn [gsel]. rewrite filter_filter. apply filter_ext_in'. intros f Hf.
     rewrite (junction_and_sem _ _ f J Hok (W f Hf)). simpl. rewrite andb_true_r, andb_assoc. reflexivity.
+  - destruct (junction current JAnd [cq]) as [q|e] eqn:J; simpl in H; [|discriminate]. inversion H. subst g'.
+    apply gsel_and; [exact ND|]. intros f Hf.
+    rewrite (junction_and_sem _ _ f J Hok (W f Hf)). simpl. rewrite andb_true_r. reflexivity.
 Qed.
 
 (* ---------- the guard of an operation sequence (computable) ---------- *)
